@@ -61,7 +61,7 @@ func gen(tier string) []proto.Item {
 		for _, cfg := range cfgs {
 			for _, r := range ranges {
 				mk := func() proto.Scn {
-					s := proto.Scn{Variant: v, First: r[0], Last: r[1], Dest: 0, IPIDBase: 800, EchoBase: 80, TimeoutMs: cfg[0], DelayMs: cfg[1], Hops: map[int]proto.HopSpec{}}
+					s := proto.Scn{Variant: v, First: r[0], Last: r[1], Dest: 0, IPIDBase: 800, EchoBase: 80, TimeoutMs: cfg[0], DelayMs: cfg[1], Hops: map[int]proto.HopSpec{}, SilentElsewhere: true}
 					for t := r[0]; t <= r[1]; t++ {
 						s.Hops[t] = proto.HopSpec{Silent: true}
 					}
